@@ -298,6 +298,7 @@ type Guard struct {
 	Cond ssa.Value
 	Pol  bool
 	Str  string // Render(Cond), prefixed with "!" when Pol is false
+	If   *ssa.If // the branch instruction
 }
 
 // GuardsAt returns the conditions that are established on every path to b:
@@ -318,7 +319,7 @@ func GuardsAt(b *ssa.BasicBlock) []Guard {
 				if !pol {
 					s = "!" + s
 				}
-				out = append(out, Guard{ifi.Cond, pol, s})
+				out = append(out, Guard{ifi.Cond, pol, s, ifi})
 			}
 			cur = p
 			continue
@@ -645,7 +646,7 @@ func GuardsOnEdge(pred, succ *ssa.BasicBlock) []Guard {
 		if !pol {
 			s = "!" + s
 		}
-		gs = append(gs, Guard{ifi.Cond, pol, s})
+		gs = append(gs, Guard{ifi.Cond, pol, s, ifi})
 	}
 	return gs
 }
